@@ -13,7 +13,8 @@ Inductive cq :=
 (* OSame: an observer read (session 0) that returned the same rows as the observer's previous read of that table (or, for
    its first read, the initial contents) - keeps the case literals small, compared at full strength *)
 Inductive cr := OOk | OErr | ORows (l : list crow) | OSame.
-Inductive ev := Ev (s : N) (q : cq) (r : cr).
+(* EvS: the observer reads every table in turn and each read returns what its previous read of that table returned *)
+Inductive ev := Ev (s : N) (q : cq) (r : cr) | EvS.
 (* initial contents of tables 0, 1, 2, ..., then the history: session, statement, observed result, in execution order *)
 Inductive case := Case (ts : list (list crow)) (h : list ev).
 
@@ -45,15 +46,18 @@ Definition res_of_cr (r : cr) : result rows :=
   match r with OOk => ROk | OErr | OSame => RErr | ORows l => RRows (map row_of l) end.
 
 (* the observed results with OSame resolved *)
-Fixpoint observed (last : N -> list crow) (h : list ev) : list (result rows) :=
+Definition table_ids (n : nat) : list N := map N.of_nat (seq 0 n).
+
+Fixpoint observed (n : nat) (last : N -> list crow) (h : list ev) : list (result rows) :=
   match h with
   | [] => []
+  | EvS :: h' => map (fun t => RRows (map row_of (last t))) (table_ids n) ++ observed n last h'
   | Ev s q r :: h' =>
       match q, r with
-      | QRead t, OSame => RRows (map row_of (last t)) :: observed last h'
+      | QRead t, OSame => RRows (map row_of (last t)) :: observed n last h'
       | QRead t, ORows l =>
-          RRows (map row_of l) :: observed (if N.eqb s 0 then (fun t' => if N.eqb t' t then l else last t') else last) h'
-      | _, _ => res_of_cr r :: observed last h'
+          RRows (map row_of l) :: observed n (if N.eqb s 0 then (fun t' => if N.eqb t' t then l else last t') else last) h'
+      | _, _ => res_of_cr r :: observed n last h'
       end
   end.
 
@@ -85,8 +89,65 @@ Definition tables (ts : list (list crow)) (t : N) : rows :=
 Definition ok (c : case) : bool :=
   let '(Case ts h) := c in
   let '(_, rs) := crun (init (tables ts))
-                      (map (fun e => match e with Ev s q _ => (s, stmt_of_cq q) end) h) in
-  results_eqb rs (observed (fun t => nth (N.to_nat t) ts []) h).
+                      (flat_map (fun e => match e with
+                                           | Ev s q _ => [(s, stmt_of_cq q)]
+                                           | EvS => map (fun t => (0%N, Read t)) (table_ids (length ts))
+                                           end) h) in
+  results_eqb rs (observed (length ts) (fun t => nth (N.to_nat t) ts []) h).
 
 Definition mismatches (cs : list (N * case)) : list N :=
   map fst (filter (fun p => negb (ok (snd p))) cs).
+
+(* Number literals are by far the most expensive thing to read in a case file (each one is interpreted by reduction);
+   the shards refer to these constants instead. *)
+Definition z0 := 0%Z. Definition z1 := 1%Z. Definition z2 := 2%Z. Definition z3 := 3%Z. Definition z4 := 4%Z. Definition z5 := 5%Z. Definition z6 := 6%Z. Definition z7 := 7%Z.
+Definition z8 := 8%Z. Definition z9 := 9%Z. Definition z10 := 10%Z. Definition z11 := 11%Z. Definition z12 := 12%Z. Definition z13 := 13%Z. Definition z14 := 14%Z. Definition z15 := 15%Z.
+Definition z16 := 16%Z. Definition z17 := 17%Z. Definition z18 := 18%Z. Definition z19 := 19%Z. Definition z20 := 20%Z. Definition z21 := 21%Z. Definition z22 := 22%Z. Definition z23 := 23%Z.
+Definition z24 := 24%Z. Definition z25 := 25%Z. Definition z26 := 26%Z. Definition z27 := 27%Z. Definition z28 := 28%Z. Definition z29 := 29%Z. Definition z30 := 30%Z. Definition z31 := 31%Z.
+Definition z32 := 32%Z. Definition z33 := 33%Z. Definition z34 := 34%Z. Definition z35 := 35%Z. Definition z36 := 36%Z. Definition z37 := 37%Z. Definition z38 := 38%Z. Definition z39 := 39%Z.
+Definition z40 := 40%Z. Definition z41 := 41%Z. Definition z42 := 42%Z. Definition z43 := 43%Z. Definition z44 := 44%Z. Definition z45 := 45%Z. Definition z46 := 46%Z. Definition z47 := 47%Z.
+Definition z48 := 48%Z. Definition z49 := 49%Z. Definition z50 := 50%Z. Definition z51 := 51%Z. Definition z52 := 52%Z. Definition z53 := 53%Z. Definition z54 := 54%Z. Definition z55 := 55%Z.
+Definition z56 := 56%Z. Definition z57 := 57%Z. Definition z58 := 58%Z. Definition z59 := 59%Z. Definition z60 := 60%Z. Definition z61 := 61%Z. Definition z62 := 62%Z. Definition z63 := 63%Z.
+Definition z64 := 64%Z. Definition z65 := 65%Z. Definition z66 := 66%Z. Definition z67 := 67%Z. Definition z68 := 68%Z. Definition z69 := 69%Z. Definition z70 := 70%Z. Definition z71 := 71%Z.
+Definition z72 := 72%Z. Definition z73 := 73%Z. Definition z74 := 74%Z. Definition z75 := 75%Z. Definition z76 := 76%Z. Definition z77 := 77%Z. Definition z78 := 78%Z. Definition z79 := 79%Z.
+Definition z80 := 80%Z. Definition z81 := 81%Z. Definition z82 := 82%Z. Definition z83 := 83%Z. Definition z84 := 84%Z. Definition z85 := 85%Z. Definition z86 := 86%Z. Definition z87 := 87%Z.
+Definition z88 := 88%Z. Definition z89 := 89%Z. Definition z90 := 90%Z. Definition z91 := 91%Z. Definition z92 := 92%Z. Definition z93 := 93%Z. Definition z94 := 94%Z. Definition z95 := 95%Z.
+Definition z96 := 96%Z. Definition z97 := 97%Z. Definition z98 := 98%Z. Definition z99 := 99%Z. Definition z100 := 100%Z. Definition z101 := 101%Z. Definition z102 := 102%Z. Definition z103 := 103%Z.
+Definition z104 := 104%Z. Definition z105 := 105%Z. Definition z106 := 106%Z. Definition z107 := 107%Z. Definition z108 := 108%Z. Definition z109 := 109%Z. Definition z110 := 110%Z. Definition z111 := 111%Z.
+Definition z112 := 112%Z. Definition z113 := 113%Z. Definition z114 := 114%Z. Definition z115 := 115%Z. Definition z116 := 116%Z. Definition z117 := 117%Z. Definition z118 := 118%Z. Definition z119 := 119%Z.
+Definition z120 := 120%Z. Definition z121 := 121%Z. Definition z122 := 122%Z. Definition z123 := 123%Z. Definition z124 := 124%Z. Definition z125 := 125%Z. Definition z126 := 126%Z. Definition z127 := 127%Z.
+Definition z128 := 128%Z. Definition z129 := 129%Z. Definition z130 := 130%Z. Definition z131 := 131%Z. Definition z132 := 132%Z. Definition z133 := 133%Z. Definition z134 := 134%Z. Definition z135 := 135%Z.
+Definition z136 := 136%Z. Definition z137 := 137%Z. Definition z138 := 138%Z. Definition z139 := 139%Z. Definition z140 := 140%Z. Definition z141 := 141%Z. Definition z142 := 142%Z. Definition z143 := 143%Z.
+Definition z144 := 144%Z. Definition z145 := 145%Z. Definition z146 := 146%Z. Definition z147 := 147%Z. Definition z148 := 148%Z. Definition z149 := 149%Z. Definition z150 := 150%Z. Definition z151 := 151%Z.
+Definition z152 := 152%Z. Definition z153 := 153%Z. Definition z154 := 154%Z. Definition z155 := 155%Z. Definition z156 := 156%Z. Definition z157 := 157%Z. Definition z158 := 158%Z. Definition z159 := 159%Z.
+Definition z160 := 160%Z. Definition z161 := 161%Z. Definition z162 := 162%Z. Definition z163 := 163%Z. Definition z164 := 164%Z. Definition z165 := 165%Z. Definition z166 := 166%Z. Definition z167 := 167%Z.
+Definition z168 := 168%Z. Definition z169 := 169%Z. Definition z170 := 170%Z. Definition z171 := 171%Z. Definition z172 := 172%Z. Definition z173 := 173%Z. Definition z174 := 174%Z. Definition z175 := 175%Z.
+Definition z176 := 176%Z. Definition z177 := 177%Z. Definition z178 := 178%Z. Definition z179 := 179%Z. Definition z180 := 180%Z. Definition z181 := 181%Z. Definition z182 := 182%Z. Definition z183 := 183%Z.
+Definition z184 := 184%Z. Definition z185 := 185%Z. Definition z186 := 186%Z. Definition z187 := 187%Z. Definition z188 := 188%Z. Definition z189 := 189%Z. Definition z190 := 190%Z. Definition z191 := 191%Z.
+Definition z192 := 192%Z. Definition z193 := 193%Z. Definition z194 := 194%Z. Definition z195 := 195%Z. Definition z196 := 196%Z. Definition z197 := 197%Z. Definition z198 := 198%Z. Definition z199 := 199%Z.
+Definition z200 := 200%Z. Definition z201 := 201%Z. Definition z202 := 202%Z. Definition z203 := 203%Z. Definition z204 := 204%Z. Definition z205 := 205%Z. Definition z206 := 206%Z. Definition z207 := 207%Z.
+Definition z208 := 208%Z. Definition z209 := 209%Z. Definition z210 := 210%Z. Definition z211 := 211%Z. Definition z212 := 212%Z. Definition z213 := 213%Z. Definition z214 := 214%Z. Definition z215 := 215%Z.
+Definition z216 := 216%Z. Definition z217 := 217%Z. Definition z218 := 218%Z. Definition z219 := 219%Z. Definition z220 := 220%Z. Definition z221 := 221%Z. Definition z222 := 222%Z. Definition z223 := 223%Z.
+Definition z224 := 224%Z. Definition z225 := 225%Z. Definition z226 := 226%Z. Definition z227 := 227%Z. Definition z228 := 228%Z. Definition z229 := 229%Z. Definition z230 := 230%Z. Definition z231 := 231%Z.
+Definition z232 := 232%Z. Definition z233 := 233%Z. Definition z234 := 234%Z. Definition z235 := 235%Z. Definition z236 := 236%Z. Definition z237 := 237%Z. Definition z238 := 238%Z. Definition z239 := 239%Z.
+Definition z240 := 240%Z. Definition z241 := 241%Z. Definition z242 := 242%Z. Definition z243 := 243%Z. Definition z244 := 244%Z. Definition z245 := 245%Z. Definition z246 := 246%Z. Definition z247 := 247%Z.
+Definition z248 := 248%Z. Definition z249 := 249%Z. Definition z250 := 250%Z. Definition z251 := 251%Z. Definition z252 := 252%Z. Definition z253 := 253%Z. Definition z254 := 254%Z. Definition z255 := 255%Z.
+Definition z256 := 256%Z. Definition z257 := 257%Z. Definition z258 := 258%Z. Definition z259 := 259%Z. Definition z260 := 260%Z. Definition z261 := 261%Z. Definition z262 := 262%Z. Definition z263 := 263%Z.
+Definition z264 := 264%Z. Definition z265 := 265%Z. Definition z266 := 266%Z. Definition z267 := 267%Z. Definition z268 := 268%Z. Definition z269 := 269%Z. Definition z270 := 270%Z. Definition z271 := 271%Z.
+Definition z272 := 272%Z. Definition z273 := 273%Z. Definition z274 := 274%Z. Definition z275 := 275%Z. Definition z276 := 276%Z. Definition z277 := 277%Z. Definition z278 := 278%Z. Definition z279 := 279%Z.
+Definition z280 := 280%Z. Definition z281 := 281%Z. Definition z282 := 282%Z. Definition z283 := 283%Z. Definition z284 := 284%Z. Definition z285 := 285%Z. Definition z286 := 286%Z. Definition z287 := 287%Z.
+Definition z288 := 288%Z. Definition z289 := 289%Z. Definition z290 := 290%Z. Definition z291 := 291%Z. Definition z292 := 292%Z. Definition z293 := 293%Z. Definition z294 := 294%Z. Definition z295 := 295%Z.
+Definition z296 := 296%Z. Definition z297 := 297%Z. Definition z298 := 298%Z. Definition z299 := 299%Z. Definition z300 := 300%Z. Definition z301 := 301%Z. Definition z302 := 302%Z. Definition z303 := 303%Z.
+Definition z304 := 304%Z. Definition z305 := 305%Z. Definition z306 := 306%Z. Definition z307 := 307%Z. Definition z308 := 308%Z. Definition z309 := 309%Z. Definition z310 := 310%Z. Definition z311 := 311%Z.
+Definition z312 := 312%Z. Definition z313 := 313%Z. Definition z314 := 314%Z. Definition z315 := 315%Z. Definition z316 := 316%Z. Definition z317 := 317%Z. Definition z318 := 318%Z. Definition z319 := 319%Z.
+Definition z320 := 320%Z. Definition z321 := 321%Z. Definition z322 := 322%Z. Definition z323 := 323%Z. Definition z324 := 324%Z. Definition z325 := 325%Z. Definition z326 := 326%Z. Definition z327 := 327%Z.
+Definition z328 := 328%Z. Definition z329 := 329%Z. Definition z330 := 330%Z. Definition z331 := 331%Z. Definition z332 := 332%Z. Definition z333 := 333%Z. Definition z334 := 334%Z. Definition z335 := 335%Z.
+Definition z336 := 336%Z. Definition z337 := 337%Z. Definition z338 := 338%Z. Definition z339 := 339%Z. Definition z340 := 340%Z. Definition z341 := 341%Z. Definition z342 := 342%Z. Definition z343 := 343%Z.
+Definition z344 := 344%Z. Definition z345 := 345%Z. Definition z346 := 346%Z. Definition z347 := 347%Z. Definition z348 := 348%Z. Definition z349 := 349%Z. Definition z350 := 350%Z. Definition z351 := 351%Z.
+Definition z352 := 352%Z. Definition z353 := 353%Z. Definition z354 := 354%Z. Definition z355 := 355%Z. Definition z356 := 356%Z. Definition z357 := 357%Z. Definition z358 := 358%Z. Definition z359 := 359%Z.
+Definition z360 := 360%Z. Definition z361 := 361%Z. Definition z362 := 362%Z. Definition z363 := 363%Z. Definition z364 := 364%Z. Definition z365 := 365%Z. Definition z366 := 366%Z. Definition z367 := 367%Z.
+Definition z368 := 368%Z. Definition z369 := 369%Z. Definition z370 := 370%Z. Definition z371 := 371%Z. Definition z372 := 372%Z. Definition z373 := 373%Z. Definition z374 := 374%Z. Definition z375 := 375%Z.
+Definition z376 := 376%Z. Definition z377 := 377%Z. Definition z378 := 378%Z. Definition z379 := 379%Z. Definition z380 := 380%Z. Definition z381 := 381%Z. Definition z382 := 382%Z. Definition z383 := 383%Z.
+Definition z384 := 384%Z. Definition z385 := 385%Z. Definition z386 := 386%Z. Definition z387 := 387%Z. Definition z388 := 388%Z. Definition z389 := 389%Z. Definition z390 := 390%Z. Definition z391 := 391%Z.
+Definition z392 := 392%Z. Definition z393 := 393%Z. Definition z394 := 394%Z. Definition z395 := 395%Z. Definition z396 := 396%Z. Definition z397 := 397%Z. Definition z398 := 398%Z. Definition z399 := 399%Z.
+Definition n0 := 0%N. Definition n1 := 1%N. Definition n2 := 2%N. Definition n3 := 3%N. Definition n4 := 4%N. Definition n5 := 5%N. Definition n6 := 6%N. Definition n7 := 7%N. Definition n8 := 8%N. Definition n9 := 9%N.
